@@ -234,6 +234,9 @@ impl SemaphoreState {
                     wait_node.task = Some(cx.waker().clone());
                     wait_node.state = PollState::Waiting;
                     self.waiters.add_front(wait_node);
+                    // The permits this waiter was notified for are still
+                    // available to waiters which queued up behind it.
+                    self.wakeup_waiters();
                     Poll::Pending
                 }
             }
